@@ -200,6 +200,14 @@ theorem iter_nonempty_only_consistent_prefix (s : RS) (a b : Bytes)
     · exact h this.1
     · exact h this.2
 
+/-- What an iteration of a wrapped store returns: exactly the entries with `start ≤ key < end`
+(so, with `reads_routed`, an iteration through the recovery store lists exactly the routed store's
+entries in the stripped range). -/
+theorem iter_contents (m : KV) (a b : Bytes) (p : Bytes × Bytes) :
+    (p ∈ m.iter a b ↔ p ∈ m ∧ bytesLt p.1 a = false ∧ bytesLt p.1 b = true) ∧
+    (p ∈ m.revIter a b ↔ p ∈ m.iter a b) := by
+  simp [KV.iter, KV.revIter, KV.range, List.mem_mergeSort]
+
 /-- The two prefixes are not prefixes of one another's keys, so "first matching prefix" is unambiguous. -/
 theorem prefixes_disjoint (k : Bytes) :
     subjectPrefix.isPrefixOf (substitutePrefix ++ k) = false ∧
